@@ -35,14 +35,16 @@ import (
 // names, at most one blank field per struct, ASCII only).
 func c07sanitizeTy(t *c07ty) {
 	switch t.kind {
-	case c07Ptr, c07Slice, c07Array, c07Named:
+	case c07Ptr, c07Slice, c07Array, c07Named, c07Alias:
 		c07sanitizeTy(t.elem)
 	case c07Struct:
 		blank := false
 		used := map[string]bool{}
 		for i := range t.fields {
 			n := t.fields[i].name
-			if n == "_" && !blank {
+			if t.fields[i].embedded {
+				// the name is the type's name (E<k>: no '_', ASCII, unique)
+			} else if n == "_" && !blank {
 				blank = true
 			} else {
 				n = strings.ReplaceAll(n, "_", "")
@@ -125,11 +127,13 @@ func c07goExpr(v string, root *c07ty, path []c07step) (expr string, bits string,
 		}
 		return expr, "uint64(uintptr(unsafe.Pointer(unsafe.StringData(string(" + expr + ")))))", true
 	case "real", "imag":
-		if t.basic == "float32" {
+		if t.under().basic == "float32" {
 			return expr, "uint64(math.Float32bits(" + last + "(" + expr + ")))", true
 		}
 		return expr, "uint64(math.Float64bits(" + last + "(" + expr + ")))", true
 	}
+	// defined and alias types: through a conversion to the underlying kind
+	t = t.under()
 	if t.kind == c07Ptr {
 		return expr, "uint64(uintptr(unsafe.Pointer(" + expr + ")))", true
 	}
@@ -138,7 +142,7 @@ func c07goExpr(v string, root *c07ty, path []c07step) (expr string, bits string,
 	}
 	switch t.basic {
 	case "bool":
-		return expr, "b2u(" + expr + ")", true
+		return expr, "b2u(bool(" + expr + "))", true
 	case "int8", "uint8":
 		return expr, "uint64(uint8(" + expr + "))", true
 	case "int16", "uint16":
@@ -148,11 +152,11 @@ func c07goExpr(v string, root *c07ty, path []c07step) (expr string, bits string,
 	case "int64", "uint64", "int", "uint", "uintptr":
 		return expr, "uint64(" + expr + ")", true
 	case "float32":
-		return expr, "uint64(math.Float32bits(" + expr + "))", true
+		return expr, "uint64(math.Float32bits(float32(" + expr + ")))", true
 	case "float64":
-		return expr, "math.Float64bits(" + expr + ")", true
+		return expr, "math.Float64bits(float64(" + expr + "))", true
 	case "uptr":
-		return expr, "uint64(uintptr(" + expr + "))", true
+		return expr, "uint64(uintptr(unsafe.Pointer(" + expr + ")))", true
 	}
 	return "", "", false
 }
@@ -312,7 +316,7 @@ func init() {
 				typeList = append(typeList, t)
 			}
 			switch t.kind {
-			case c07Ptr, c07Slice, c07Array, c07Named:
+			case c07Ptr, c07Slice, c07Array, c07Named, c07Alias:
 				addType(t.elem)
 			case c07Struct:
 				for _, fl := range t.fields {
@@ -476,7 +480,13 @@ func init() {
 			for i := range s.results {
 				resv = append(resv, "r"+itoa(i))
 			}
+			if s.variadic {
+				argv[len(argv)-1] += "..."
+			}
 			call := fn + "(" + strings.Join(argv, ", ") + ")"
+			if s.variadic {
+				argv[len(argv)-1] = strings.TrimSuffix(argv[len(argv)-1], "...")
+			}
 			if len(resv) > 0 {
 				call = strings.Join(resv, ", ") + " := " + call
 			}
@@ -605,6 +615,8 @@ func init() {
 			stats["exec_pairs_run"] += er[0]
 		}
 		stats["functions"] = len(sigs)
+		// every scalar leaf must resolve, and the pointer in front of a Dereference too: dropped leaves are a verdict
+		o.emit(fmt.Sprintf("accept-count %d unresolved-leaves", stats["leaf_unresolved"]+stats["leaf_behind_defined_pointer_type"]), "ok")
 		var diag []string
 		for k, ds := range vetPerFn {
 			for _, d := range ds {
